@@ -117,7 +117,7 @@ static long long excess(double p, double c, double res, bool wrap) {
   long double u = max(fabs(p), fabs(c)); double ul = nextafter((double)u, INFINITY) - (double)u;
   if (ul < 1e-300) ul = 1e-300;
   long double ex = (fabsl(d) - (long double)res / 2) / ul;
-  if (ex > 1e6) return 1000000; if (ex < -1e6) return -1000000;
+  if (!(ex <= 1e6)) return 1000000; /* NaN counts as outside */ if (ex < -1e6) return -1000000;
   return (long long) ceill(ex);
 }
 static string lowers(string c) { for (auto& ch : c) ch = char(tolower(ch)); return c; }
